@@ -433,7 +433,14 @@ def _rand_lines(rng, n, W=500, H=300, none_bl=0.0, zero=0.0):
         bl: Optional[list] = _rand_baseline(rng, *box, wild=rng.random() < 0.3)
         if rng.random() < none_bl:
             bl = None
-        specs.append({'id': i, 'box': box, 'bl': bl, 'text': _rand_text(rng)})
+        text = _rand_text(rng)
+        if specs and rng.random() < 0.08:
+            # two DIFFERENT lines with exactly the same box (and mostly the same text, baseline included): "never loses
+            # or duplicates a line that has text" is about lines, not about distinct geometry
+            twin = rng.choice(specs)
+            box, bl = list(twin['box']), (None if twin['bl'] is None else [list(p) for p in twin['bl']])
+            text = twin['text'] if rng.random() < 0.8 else text
+        specs.append({'id': i, 'box': box, 'bl': bl, 'text': text})
     return specs
 
 
